@@ -259,6 +259,33 @@ func runC12(r *Run) {
 						rd.ViolationPath(fn, instrPos(ret), "reader stops on a read error", "the reader's goroutine returns depending on the error of ReadFrom: one datagram that fails to read or decode (a runt, garbage) ends the delivery of every later response", pc.Witness(fn, ret))
 						break
 					}
+					if repRet[ret] {
+						return
+					}
+					// and it leaves only for a reason to stop: the stop signal was received, the client is closed, or
+					// the agent said it is closed - never after a message that was delivered normally
+					reason := false
+					for _, ec := range pc.PathConds() {
+						cond, val := ec.Cond, ec.Val
+						for {
+							u, isU := cond.(*ssa.UnOp)
+							if !isU || u.Op != token.NOT {
+								break
+							}
+							cond, val = u.X, !val
+						}
+						switch why, pol, known := stopReasonOf(p, m, cond); {
+						case why == "":
+						case !known:
+							reason = true // depends on a stop source in a shape not modelled: accepted
+						case pol == val:
+							reason = true
+						}
+					}
+					if !reason {
+						repRet[ret] = true
+						rd.ViolationPath(fn, instrPos(ret), "reader stops without a reason to stop", "the reader's goroutine returns on a path on which neither the stop signal was received nor the agent (or client) was found closed: after one delivered (or dropped) datagram no later response is read, every later transaction times out", pc.Witness(fn, ret))
+					}
 				}
 				rq.Run()
 			}
@@ -468,7 +495,7 @@ func runC12(r *Run) {
 	// the handler runs after the agent lock is released: a handler that starts a follow-up transaction must not block delivery (shared with C13)
 	r.Borrow("C13", map[string]string{"C13.order": "C12.order"})
 	// the callback of Do runs inside the event handler, while the reader's reused Message still holds this datagram; Start removes/stops only the transaction it registered (shared with C10)
-	r.Borrow("C10", map[string]string{"C10.do": "C12.do", "C10.rollback": "C12.rollback"})
+	r.Borrow("C10", map[string]string{"C10.do": "C12.do", "C10.rollback": "C12.rollback", "C10.putlast": "C12.putlast"})
 	// the reader's buffer keeps its capacity from one datagram to the next: a response is never truncated because an
 	// earlier one was shorter (shared with C20)
 	r.Borrow("C20", map[string]string{"C20.retain": "C12.buffer"})
@@ -491,4 +518,96 @@ func structArgKey(k *keyer, arg ssa.Value, name string) (string, bool) {
 		}
 	}
 	return k.Key(arg) + "." + name, true
+}
+
+// stopReasonOf classifies a branch condition of the reader: why = "" when it does not depend on a stop source
+// (the stop channel, the closed flag, ErrAgentClosed); known = the shape is modelled and pol is the outcome of
+// the condition that means "stop".
+func stopReasonOf(p *Prog, m *clientModel, cond ssa.Value) (why string, pol bool, known bool) {
+	agentClosed, _ := p.Stun.Members["ErrAgentClosed"].(*ssa.Global)
+	isAgentClosed := func(v ssa.Value) bool {
+		ld, ok := v.(*ssa.UnOp)
+		return ok && ld.Op == token.MUL && agentClosed != nil && ld.X == ssa.Value(agentClosed)
+	}
+	isStopSelect := func(v ssa.Value) (int64, bool) {
+		sel, ok := v.(*ssa.Select)
+		if !ok {
+			return 0, false
+		}
+		for i, st := range sel.States {
+			if st.Dir == types.RecvOnly && valueIsLoadOfField(st.Chan, m.CloseCh) {
+				return int64(i), true
+			}
+		}
+		return 0, false
+	}
+	switch x := cond.(type) {
+	case *ssa.BinOp:
+		if x.Op == token.EQL || x.Op == token.NEQ {
+			if isAgentClosed(x.X) || isAgentClosed(x.Y) {
+				return "agent closed", x.Op == token.EQL, true
+			}
+			if e, ok := x.X.(*ssa.Extract); ok && e.Index == 0 {
+				if idx, isSel := isStopSelect(e.Tuple); isSel {
+					if c, isC := constInt(x.Y); isC {
+						if c == idx {
+							return "stop signal", x.Op == token.EQL, true
+						}
+						return "stop signal", false, false
+					}
+				}
+			}
+		}
+	case *ssa.Call:
+		if sc := x.Call.StaticCallee(); sc != nil && sc.Pkg != nil && sc.Pkg.Pkg.Path() == "errors" && sc.Name() == "Is" && len(x.Call.Args) == 2 {
+			if isAgentClosed(x.Call.Args[1]) || isAgentClosed(x.Call.Args[0]) {
+				return "agent closed", true, true
+			}
+		}
+	case *ssa.UnOp:
+		if x.Op == token.MUL && valueIsLoadOfField(x, m.Closed) {
+			return "client closed", true, true
+		}
+	}
+	// any other shape: does it depend on a stop source at all?
+	var dep func(v ssa.Value, depth int) bool
+	dep = func(v ssa.Value, depth int) bool {
+		if v == nil || depth > 8 {
+			return false
+		}
+		if isAgentClosed(v) || valueIsLoadOfField(v, m.Closed) || valueIsLoadOfField(v, m.CloseCh) {
+			return true
+		}
+		switch y := v.(type) {
+		case *ssa.BinOp:
+			return dep(y.X, depth+1) || dep(y.Y, depth+1)
+		case *ssa.UnOp:
+			return dep(y.X, depth+1)
+		case *ssa.Phi:
+			for _, e := range y.Edges {
+				if dep(e, depth+1) {
+					return true
+				}
+			}
+		case *ssa.Extract:
+			return dep(y.Tuple, depth+1)
+		case *ssa.Select:
+			for _, st := range y.States {
+				if dep(st.Chan, depth+1) {
+					return true
+				}
+			}
+		case *ssa.Call:
+			for _, a := range y.Call.Args {
+				if dep(a, depth+1) {
+					return true
+				}
+			}
+		}
+		return false
+	}
+	if dep(cond, 0) {
+		return "stop source", false, false
+	}
+	return "", false, false
 }
